@@ -203,3 +203,32 @@ func verifH_C11_symbolic_ref() {
 
 //verif:harness id=C11 tier=quick,thorough witness=end bounds="external references allowed: a reference nested inside an externally loaded object of five kinds, reached by whole-file reference or fragment from sub-directories, spelled relative to its own file, with same-named decoy files in the root's directory and above: only the root, the containing file and the file the nested reference designates are read (shared with C02's nested harness)"
 func verifH_C11_nested() { verifNestedRefs("C11") }
+
+//verif:harness id=C11 tier=quick,thorough witness=end bounds="the library's own readers (no I/O happens: the file system stub has no files and no request is sent): ReadFromFile and ReadFromHTTP on 10 locations (absolute and relative paths, file: URLs with and without a host, scheme-relative //host/path, http / https / ftp URLs, an empty location): a location that names a host or a non-file scheme is refused by the file reader with ErrURINotSupported before any file is touched, and a location without a host is refused by the HTTP reader"
+func verifH_C11_default_readers() {
+	locs := []struct {
+		text     string
+		fileLike bool
+	}{
+		{"/verif-no-such-dir/x.json", true}, {"verif-no-such-dir/x.json", true}, {"file:///verif-no-such-dir/x.json", true},
+		{"//h.example/verif-no-such-dir/x.json", false}, {"file://h.example/verif-no-such-dir/x.json", false},
+		{"http://h.example/verif-no-such-dir/x.json", false}, {"https://h.example/x.json", false}, {"ftp://h.example/x.json", false},
+		{"", false}, {"#/components/schemas/A", false},
+	}
+	l := locs[verifChoose("location", len(locs))]
+	u, err := url.Parse(l.text)
+	if err != nil {
+		return
+	}
+	_, ferr := ReadFromFile(nil, u)
+	if l.fileLike {
+		verifAssert(ferr != nil && ferr != ErrURINotSupported, "C11 readers: a local path is tried as a file (and is not there)")
+	} else {
+		verifAssert(ferr == ErrURINotSupported, "C11 readers: the file reader refuses a location that names a host or another scheme without touching any file")
+	}
+	if u.Scheme == "" || u.Host == "" {
+		_, herr := ReadFromHTTP(nil)(nil, u)
+		verifAssert(herr == ErrURINotSupported, "C11 readers: the HTTP reader refuses a location without scheme or host without sending anything")
+	}
+	verifReach("end")
+}
